@@ -16,8 +16,8 @@ REG.entities['Task'] = dict(
     delay='opt:ref:DelayModel', delay_offset='num', workflow_offset='num', graph_id='any', flops='num',
     task_data='num', io='dict:str->num')
 REG.entities['Observation'] = dict(
-    name='str', buffer_id='num', cluster_id='str', est='num', ast='optnum', duration='num', demand='num',
-    workflow='str', total_data_size='num', ingest_data_rate='num', timestep='any', status='enum:RunStatus',
+    name='str', buffer_id='num', cluster_id='str', est='num', ast='optnum', duration='int', demand='num',
+    workflow='str', total_data_size='num', ingest_data_rate='int', timestep='any', status='enum:RunStatus',
     min_resources='num', max_resources='num', plan='opt:ref:WorkflowPlan')
 REG.entities['WorkflowPlan'] = dict(
     id='str', est='num', eft='num', ast='num', tasks='list:Task', exec_order='list:any', status='enum:WorkflowStatus',
